@@ -110,6 +110,8 @@ def oscillation_schedule(rng):
         n += 1
         steps.append({"at": t, "do": "rx", "r": 1, "ty": "NON", "code": 1, "mid": 300 + n, "tok": "%04x" % (0xC000 + n),
                       "path": ["h", "2"], "b2": [0, 0, szx]})
+        if rng.random() < 0.4:
+            del steps[-1]["b2"]      # a plain request: the latest rendering all the same
     for num in (1, 2):
         n += 1
         steps.append({"at": later + num, "do": "rx", "r": 1, "ty": "NON", "code": 1, "mid": 300 + n, "tok": "%04x" % (0xC000 + n),
@@ -120,10 +122,47 @@ def oscillation_schedule(rng):
             "handlers": handlers, "steps": steps, "triggers": [], "horizon": 300 * 1024}
 
 
+def keepalive_schedule(rng):
+    """An abandoned upload (and an abandoned rendering) while OTHER transfers keep the tables busy, each access less
+    than the lifetime after the previous one: the abandoned state is still discarded within twice the lifetime of ITS
+    last use, so its continuation at 2T and later is refused with 4.08."""
+    steps = []
+    n = [0]
+
+    def rx(t, **kw):
+        n[0] += 1
+        steps.append(dict({"at": t, "do": "rx", "r": 1, "ty": "NON", "mid": (300 + n[0]) & 0xFFFF, "tok": "%04x" % (0xD000 + n[0])}, **kw))
+
+    size = 16
+    salt_a = key_salt(1, 3, 10)
+    rx(0, code=3, path=["h", "1"], ckq=0, b1=[0, 1, 0], body={"cid": salt_a, "off": 0, "len": size})
+    rx(1, code=1, path=["h", "2"], ckq=0, b2=[0, 0, 0])
+    step = rng.choice([T_REAL // 3, T_REAL // 2, (2 * T_REAL) // 3, T_REAL - 5])
+    t = step
+    i = 0
+    end = 2 * T_REAL + rng.choice([5, 1000, T_REAL // 2, T_REAL])
+    while t < end + step:
+        i += 1
+        # other keys: another endpoint's upload block 0 and block-0 rendering, again and again
+        salt_o = key_salt(2, 3, 11)
+        rx(t, r=2, code=3, path=["h", "1"], ckq=1, b1=[0, 1, 0], body={"cid": salt_o, "off": 0, "len": size})
+        rx(t + 1, r=2, code=1, path=["h", "2"], ckq=1, b2=[0, 0, 0])
+        t += step
+    rx(end, code=3, path=["h", "1"], ckq=0, b1=[1, 0, 0], body={"cid": salt_a, "off": size, "len": 7})
+    rx(end + 2, code=1, path=["h", "2"], ckq=0, b2=[1, 0, 0])
+    steps.sort(key=lambda s: s["at"])
+    handlers = {"1": {"delay": 0, "outcome": "nocode", "len": 0},
+                "2": {"delay": 0, "canon": True, "outcome": "ok", "lens": [100]}}
+    return {"tuning": {"EMPTY_ACK_DELAY": 0.125}, "mid0": rng.randint(0, 65535), "tok0": 5, "nremotes": 4,
+            "handlers": handlers, "steps": steps, "triggers": [], "horizon": 400 * 1024}
+
+
 def random_schedule(rng):
     """Real parameters.  Each (endpoint, method, cache key) has its own canonical body."""
     if rng.random() < 0.12:
         return oscillation_schedule(rng)
+    if rng.random() < 0.04:
+        return keepalive_schedule(rng)
     steps = []
     nrem = rng.choice([1, 2, 3])
     t = 0
@@ -132,11 +171,21 @@ def random_schedule(rng):
         "1": {"delay": 0, "outcome": "nocode", "len": 0},
         "2": {"delay": 0, "canon": True, "outcome": "ok",
               "lens": [rng.choice([0, 5, 16, 17, 40, 100, 1023, 1024, 1025, 2500]) for _ in range(6)]},
+        # a second resource of each kind: block-wise state is per resource as well
+        "3": {"delay": 0, "outcome": "nocode", "len": 0},
+        "4": {"delay": 0, "canon": True, "outcome": "ok",
+              "lens": [rng.choice([0, 16, 40, 100, 1025, 2500]) for _ in range(6)]},
     }
+    tworesources = rng.random() < 0.35
+    twoports = rng.random() < 0.3      # peers n and n + 10: one address, two ports -- two endpoints
     ntransfers = rng.randint(1, 4)
     plan = []
     for _ in range(ntransfers):
         r = rng.randint(1, nrem)
+        if twoports:
+            r = rng.choice([1, 11])
+        res = 2 if tworesources and rng.random() < 0.5 else 0     # 0: resources h/1, h/2; 2: h/3, h/4
+        acc = rng.choice([None, 60, [12, "2a"], [292, "01"], [292, "02"]]) if rng.random() < 0.3 else None
         if rng.random() < 0.55:
             # a Block1 upload, possibly misbehaving
             code = rng.choice([3, 2])
@@ -163,7 +212,7 @@ def random_schedule(rng):
             elif mis == "dupfinal":
                 seq.append(seq[-1])
             for num, more, plen in seq:
-                plan.append(("b1", r, code, ckq, szx, num, more, plen))
+                plan.append(("b1", r, code, ckq, szx, num, more, plen, res, acc))
         else:
             code = rng.choice([1, 1, 5])
             ckq = rng.choice([0, 0, 1])
@@ -175,25 +224,39 @@ def random_schedule(rng):
             if nums[0] == "plain":
                 szx = 6
             for num in nums:
-                plan.append(("b2", r, code, ckq, szx if rng.random() < 0.85 else max(0, szx - 1), num, 0, 0))
+                plan.append(("b2", r, code, ckq, szx if rng.random() < 0.85 else max(0, szx - 1), num, 0, 0, res, acc))
     # interleave a little
     if rng.random() < 0.4:
         rng.shuffle(plan)
         # keep per-key order of first occurrences plausible: no constraint needed, the monitor judges whatever comes
-    for (kind, r, code, ckq, szx, num, more, plen) in plan:
+    if twoports or tworesources:
+        # interleave two transfers that differ in the endpoint's port / the resource / the Accept option only:
+        # the second one's blocks must not extend, nor be cut from, the first one's state
+        k0 = rng.choice([0, 1])
+        a = ("b1", 1, 3, k0, 0, 0, 1, 16, 0, None)
+        b_r = 11 if twoports else 1
+        b_res = 2 if (tworesources and not twoports) else 0
+        plan += [a, ("b1", b_r, 3, k0, 0, 1, 0, 7, b_res, None), ("b1", 1, 3, k0, 0, 1, 0, 7, 0, None)]
+        plan += [("b2", 1, 1, k0, 0, 0, 0, 0, 0, None), ("b2", b_r, 1, k0, 0, 1, 0, 0, b_res, None)]
+    if rng.random() < 0.15:
+        # two uploads of one endpoint that differ in one cache-key option only
+        other = rng.choice([60, [12, "2a"], [292, "01"]])
+        plan += [("b1", 1, 3, 0, 0, 0, 1, 16, 0, None), ("b1", 1, 3, 0, 0, 1, 0, 7, 0, other), ("b1", 1, 3, 0, 0, 1, 0, 7, 0, None)]
+    for (kind, r, code, ckq, szx, num, more, plen, res, acc) in plan:
         n += 1
         t += rng.choice([0, 1, 50, 1000, T_REAL - 1, T_REAL, T_REAL + 1, 2 * T_REAL - 1, 2 * T_REAL, 2 * T_REAL + 1]
                         if rng.random() < 0.25 else [0, 1, 50, 1000])
         tok = "%04x" % (0xB000 + n)
+        accq = 2 * {"None": 0, "60": 1, "[12, '2a']": 2, "[292, '01']": 3, "[292, '02']": 4}[str(acc)]
         if kind == "b1":
-            salt = key_salt(r, code, 10 + ckq)
+            salt = key_salt(r, code, (1 + res) * 10 + ckq + accq)
             size = 2 ** (szx + 4)
             steps.append({"at": t, "do": "rx", "r": r, "ty": rng.choice(["NON", "CON"]), "code": code, "mid": (300 + n) & 0xFFFF,
-                          "tok": tok, "path": ["h", "1"], "ckq": ckq, "b1": [num, more, szx],
+                          "tok": tok, "path": ["h", str(1 + res)], "ckq": ckq, "b1": [num, more, szx], "accept": acc,
                           "body": {"cid": salt, "off": num * size, "len": plen}})
         else:
             steps.append({"at": t, "do": "rx", "r": r, "ty": rng.choice(["NON", "CON"]), "code": code, "mid": (300 + n) & 0xFFFF,
-                          "tok": tok, "path": ["h", "2"], "ckq": ckq, "b2": [num, 0, szx]})
+                          "tok": tok, "path": ["h", str(2 + res)], "ckq": ckq, "b2": [num, 0, szx], "accept": acc})
             if num == "plain":
                 del steps[-1]["b2"]
     trig = [{"on": {"tx": {"ty": "CON", "cls": "resp", "nth": k}}, "delay": 2, "rx": {"ty": "ACK", "code": 0, "mid": "same"}} for k in range(1, 12)]
